@@ -151,6 +151,11 @@ claim("C21", "Proof that Exchange posts a turn only in the state 'no cursor, fin
       "no reentrancy from the transport into the stream (the owned-writes check is syntactic).",
       ["exactly the server's batches in order, tokens stripped from metadata, typed exceptions (parseIPCStream / stripClientControlMetadata)", "schema / encoding / trailing-byte rejection inside parseMain", "the decoded cap comparison in post"])
 
+claim("C43", "Proof over every path of the OpenTelemetry hook that, whenever a propagator is configured and the dispatch carries transport metadata, the caller's trace context is extracted from that metadata (from the incoming context, whatever span it already holds) and the server span is started in the extracted context, the token carrying that span; and that OnDispatchEnd ends a recording span exactly once, after its status was set — Error exactly when the call failed, Ok otherwise — and increments the request counter by one with the matching status label.",
+      "the OpenTelemetry API objects (tracer, span, propagator, counter) are unknown interface calls; only the order, arguments and conditions of the hook's calls on them are proved.",
+      ["that the SDK parents the span on the extracted context (OpenTelemetry SDK behaviour)", "spans that are not recording", "duration histogram"],
+      pkgs=[{"dir": "/repo/vgirpc/otel", "pattern": "."}])
+
 # properties not claimed: reason
 NOT_APPLICABLE = {
     "C11": "relational two-run equivalence between the pipe loop and the HTTP handlers routed through gob, AEAD and Arrow IPC; contracts here are single-run and per function",
